@@ -136,6 +136,24 @@ fn gen_c15(tier: &str, rng: &mut Rng, emit: &mut dyn FnMut(Op)) {
 
 pub fn gen(id: &str, tier: &str, rng: &mut Rng, emit: &mut dyn FnMut(Op)) {
     match id {
+        "C17" => {
+            // mutations of every other generator's ops (and the ops themselves, sampled)
+            let mut pool: Vec<Op> = vec![];
+            for pid in ["C14", "C15"] {
+                let mut sub = Rng::new(rng.next());
+                let mut n = 0usize;
+                gen(pid, "quick", &mut sub, &mut |op: Op| {
+                    n += 1;
+                    if n % 7 == 0 || pool.len() < 400 {
+                        pool.push(op);
+                    }
+                });
+            }
+            // files are exercised by their own properties; C17 is about parsers and matchers
+            pool.retain(|o| !matches!(o.name.as_str(), "distinfo.verify" | "pkgdb.iter"));
+            let n = if tier == "thorough" { 60000 } else { 4000 };
+            fuzz(&pool, n, rng, emit);
+        }
         "C14" => gen_c14(tier, rng, emit),
         "C15" => gen_c15(tier, rng, emit),
         _ => {
